@@ -665,6 +665,8 @@ def _gen_spec_once(rng, pf):
         "settings": {"start": start, "end": _f(end), "dt": dt},
         "meta": {"vclass": vclass, "groups": groups},
     }
+    if rng.random() < 0.2:
+        spec["charac_sheet_order"] = "reversed"
     # residual marker sanity: a cell holds either '>' or parameters
     for t in spec["trans"]:
         if ">" in t[2] and t[2] != ">":
@@ -749,7 +751,8 @@ def framework_workbook(spec):
 
     ws = wb.create_sheet("Characteristics")
     ws.append(["Code Name", "Display Name", "Components", "Denominator", "Databook Page", "Default Value", "Setup Weight"])
-    for c in spec["characs"]:
+    # the order of the rows is free: a characteristic may include (or be divided by) one that is defined further down
+    for c in (list(reversed(spec["characs"])) if spec.get("charac_sheet_order") == "reversed" else spec["characs"]):
         db = "characs" if c.get("db") else None
         sw = c.get("setup")
         if sw is None:
